@@ -193,6 +193,9 @@ def gen_world(rng, want="plain"):
         w["flags"]["runtime_variance"] = rng.choice([10, 30, 100])
     if any(g["release_policy"] == "periodic" for g in graphs) and w["flags"]["loop_timeout"] > 400:
         w["flags"]["loop_timeout"] = 400
+    # flags that must not matter for the trace: every process runs in a fresh directory, so appending = writing
+    if rng.random() < 0.35:
+        cli["log_file_mode"] = "append"
     w["cli"] = cli
     w["format"] = rng.choice(["json", "json", "yaml"])
     w["random_seed"] = rng.choice([0, 1, 42, rng.randrange(2**31), rng.randrange(2**31), rng.randrange(2**62)])
@@ -271,7 +274,7 @@ def argv(world, wl, wk):
     for k in ("enforce_deadlines", "resolve_conditionals_at_submission", "decompose_deadlines"):
         if cli.get(k):
             a.append(f"--{k}")
-    for k in ("min_deadline_variance", "max_deadline_variance"):
+    for k in ("min_deadline_variance", "max_deadline_variance", "log_file_mode"):
         if k in cli:
             a.append(f"--{k}={cli[k]}")
     return a
